@@ -7,6 +7,10 @@ From PVBridge Require Import MultiBridge.
 (* the methods of Multitask that the model describes still have exactly the modelled shape (branch order included) *)
 Theorem C20_regenerated : gen_multitask_shape = true.
 Proof. reflexivity. Qed.
+(* `x in ModeSolver` is `ModeSolver(x) succeeds` (MetaEnum.__contains__), and ModeSolver has exactly the documented values: the ONE predicate `valid` of
+   the theorems below stands for both the constructor's membership test and the conversion in __get_mode__ *)
+Theorem C20_enum_regenerated : gen_enum_shape = true.
+Proof. reflexivity. Qed.
 
 (* __check_input__, __check_modes__ and __get_mode__ as REGENERATED from multitask.py (T-core) are the model's functions; a constructed
    Multitask designates for every pair in range exactly the model's table entry, without raising *)
